@@ -9,7 +9,7 @@ NPS = 1_000_000_000
 
 META = {
     "property": "C17",
-    "proof_modules": ["PyodaProofs.C17", "PyodaProofs.C17Read"],
+    "proof_modules": ["PyodaProofs.C17", "PyodaProofs.C17Read", "PyodaProofs.GenAgreeC07N"],
     "drivers": ["drv_text"],
     "theorems": [
         "Pyoda.C17.isoDate_fixed_width",
@@ -29,13 +29,31 @@ META = {
         "Pyoda.C17.stdlib_reads_isoDateTime",
         "Pyoda.C17.stdlib_reads_isoInstant",
         "Pyoda.C17.stdlib_reads_offset",
+        # agreement of the definitions generated from the Python source (tools/py2lean.py) with the model
+        "Pyoda.GenAgree.C07N.gen_FormatHelper_leftPadNonNegative_eq",
+        "Pyoda.GenAgree.C07N.gen_FormatHelper_leftPadNonNegative_dom",
+        "Pyoda.GenAgree.C07N.gen_FormatHelper_format2DigitsNonNegative_eq",
+        "Pyoda.GenAgree.C07N.gen_FormatHelper_format4DigitsValueFits_eq",
+        "Pyoda.GenAgree.C07N.gen_FormatHelper_leftPad_eq", "Pyoda.GenAgree.C07N.gen_FormatHelper_appendFraction_eq",
+        "Pyoda.GenAgree.C07N.gen_FormatHelper_formatInvariant_eq",
+        "Pyoda.GenAgree.C07N.gen_FormatHelper_appendFractionTruncate_eq", "Pyoda.GenAgree.C07N.gen_Cursor_length_eq",
+        "Pyoda.GenAgree.C07N.gen_Cursor_value_eq", "Pyoda.GenAgree.C07N.gen_Cursor_index_eq",
+        "Pyoda.GenAgree.C07N.gen_Cursor_current_eq", "Pyoda.GenAgree.C07N.gen_Cursor_hasMoreCharacters_eq",
+        "Pyoda.GenAgree.C07N.gen_Cursor_move_eq", "Pyoda.GenAgree.C07N.gen_Cursor_moveNext_eq",
+        "Pyoda.GenAgree.C07N.gen_Cursor_movePrevious_eq", "Pyoda.GenAgree.C07N.gen_Cursor_parseDigits_eq",
+        "Pyoda.GenAgree.C07N.gen_Cursor_parseFraction_eq", "Pyoda.GenAgree.C07N.gen_Cursor_matchText_eq",
+        "Pyoda.GenAgree.C07N.gen_Cursor_getDigit_eq", "Pyoda.GenAgree.C07N.gen_Cursor_remainder_eq",
+        "Pyoda.GenAgree.C07N.gen_Cursor_peekNext_eq", "Pyoda.GenAgree.C07N.gen_StringBuilder_length_eq",
+        "Pyoda.GenAgree.C07N.gen_StringBuilder_getitem_eq", "Pyoda.GenAgree.C07N.gen_StringBuilder_toString_eq",
     ],
     "trusted_base": [
+        "translator tie (tools/py2lean.py; GenAgreeC07N, builder T4): what Python's str operations mean is PyodaGen/TextSupport.lean — a str is the list of its code points, s[i] a character (negative indices from the end, IndexError outside), slices with Python's clamping, f\"{v:0N}\" / f\"{v:0{n}d}\" sign-aware zero padding (ValueError for n < 0), f\"{v:0>{n}}\" fill-right (a negative n = -k reads as sign option + width k), str(int), c.isdigit() as the table of CPython's 808 digit code points, int(c) only for '0'..'9', int(a * math.pow(10.0, k)) as the exact integer a*10^k ONLY where the double computation is exact (0 <= k <= 22, 0 <= a, a*10^k < 2^53) — outside these ranges, and for format widths above INT_MAX, the generated code answers 'outside the modelled domain'; all of it is compared with CPython on every run of the C03 check (tools/py2lean_selftest.py text_selftest: 25 corpus functions, every code point for isdigit, 21 must-refuse programs). The StringBuilder (append, length, item, length setter) and the four cursor attributes are explicit state (PyodaGen/GlueC07N.lean, the StringBuilder operations hand-written from _string_builder.py); the cursor methods themselves are translated",
         "CPython datetime.date/time/datetime isoformat()/fromisoformat() as the independent ISO-8601 reader/writer",
         "PyIso (Lean transcription of date.isoformat / time.isoformat) tied to CPython by suite text.pyiso",
         "PyIsoParse (Lean transcription of the fromisoformat readers of Lib/_pydatetime.py) tied to _pydatetime by suite text.pyparse.ref and to the C implementation that fromisoformat really runs by suite text.pyparse.c",
     ],
     "partial": [
+        "translator tie covers the numeric core only: _FormatHelper (_left_pad_non_negative, _format_2_digits_non_negative, _format_4_digits_value_fits, _left_pad, _append_fraction, _append_fraction_truncate, _format_invariant) and _TextCursor/_ValueCursor (length, value, current, index, has_more_characters, remainder, peek_next, move, move_next, move_previous, _match, _parse_digits, _parse_fraction, __get_digit), each proved equal to the model of PyodaModel/Text/Numeric.lean on cursor states VC.at v i (text v, index i; remaining text v.drop i). Hypotheses: widths <= INT_MAX; |value| < 10^27 where _towards_zero_division (Decimal) is used; _parse_fraction for maximum_digits <= scale <= 15 (where the float scaling is exact); cursor index inside 0..len for the scanning functions. Outside the tie (refused by the translator, correspondence only): _parse_int64 and __build_number_out_of_range_result (walrus over a raising call under `and` in the loop test; ParseResult objects carrying formatted messages), _match_case_insensitive (str.lower), _compare_ordinal (str ordering of whole strings), __str__, the pattern compiler and every step built on top of these primitives",
         "theorems cover the modelled straight-line ISO formatters (ISO date, extended/long/general ISO time, date-time, instant over date-time fields, offset g/G); the generic step language is covered by the direct oracles only",
         "the stdlib readers are modelled from the pure-Python reference Lib/_pydatetime.py (theorems stdlib_reads_*); the C implementation (_datetime) is tied to that model by correspondence only, on every text the patterns or the stdlib write and on the hostile texts where both stdlib implementations agree (they differ on some malformed texts; the count is reported as a note)",
         "outside the reader model (!dom): the ISO week forms (YYYY-Www-D) and int() leniency of _pydatetime on non-digit slices (white space, underscore, sign, non-ASCII digits); the stdlib_reads_* theorems cover the extended / long / general time patterns, the extended / general date-time and instant patterns and offsets of whole minutes (g / G), not bcl_round_trip, variable_precision_iso or offsets with seconds (direct oracles only)",
